@@ -4,7 +4,7 @@ from kv import Case, xn, xb, xl, xlist, xopt, xbool
 
 ID = "C07"
 MODULE = "C07"
-IMPORTS = "Bytes RustInt Http1Read Http1ReadProofs"
+IMPORTS = "Bytes RustInt Http1Read Http1ReadProofs Http1ReadParseProofs"
 PROFILES = ("dev", "nochk")
 KERNEL_SAMPLE = 30
 THEOREMS = []   # filled in below (kept at the end of the file for readability)
@@ -372,6 +372,8 @@ def spec_ok(c, i, s):
         return True
     if s == "(L (N 1))":
         return i.startswith("(L (N 1) ")
+    if s.startswith("(L (N 1) "):
+        return i == s           # the segmentation-blind specification names the error class
     if c.comp == "h1.request":
         xs = kv.xparse(s)
         xi = kv.xparse(i)
@@ -439,5 +441,21 @@ LEVEL_NOTE = ("Trusted: Coq kernel, extraction (reduced by the in-kernel recheck
 TECHNIQUE = "Coq proof (model satisfies the specification for all requests, schedules and growth functions) + differential correspondence model vs. implementation"
 EXHAUSTIVE = False
 
+ERRS = r"(e = E_TOO_LONG \/ e = E_UNEXPECTED_END \/ e = E_SYNTAX)"
+NEED = r"N.to_nat (N.min (body_length (g_method g) (g_hmap g)) limit)"
 THEOREMS = [
+    ("parse_print",
+     r"forall grow mode https dh (max_len : nat) limit (g : greq) rest (sched : list nat) e, grow_ok grow -> sched_pos sched -> greq_ok g = true -> (length (print_head g) <= max_len)%nat -> expect https dh limit g rest = Some e -> (NEED <= length rest)%nat -> (length (print_head g) + NEED <= sum_sched sched)%nat -> exists sv, serve grow mode https dh max_len limit (print_head g ++ rest) sched = Ok sv /\ observed sv = Some e".replace("NEED", NEED)),
+    ("parse_print_head",
+     r"forall https dh (g : greq) extra host auth path query, greq_ok g = true -> g_host dh g = Some host -> parse_uri https host (g_target g) = Some (auth, path, query) -> parse_request https dh (print_head g ++ extra) = Ok (mk_request (g_method g) path query (if g_v11 g then 11 else 10) (g_hmap g) auth extra)"),
+    ("schedule_independent",
+     r"forall grow1 grow2 mode1 mode2 https dh (max_len : nat) limit (g : greq) rest (sched1 sched2 : list nat), grow_ok grow1 -> grow_ok grow2 -> sched_pos sched1 -> sched_pos sched2 -> greq_ok g = true -> (length (print_head g) <= max_len)%nat -> expect https dh limit g rest <> None -> (NEED <= length rest)%nat -> (length (print_head g) + NEED <= sum_sched sched1)%nat -> (length (print_head g) + NEED <= sum_sched sched2)%nat -> exists sv1 sv2, serve grow1 mode1 https dh max_len limit (print_head g ++ rest) sched1 = Ok sv1 /\ serve grow2 mode2 https dh max_len limit (print_head g ++ rest) sched2 = Ok sv2 /\ observed sv1 = observed sv2 /\ observed sv1 <> None".replace("NEED", NEED)),
+    ("head_limit",
+     r"forall grow mode https dh (max_len : nat) limit stream (sched : list nat), contains_two_newlines (firstn max_len stream) = false -> exists e, serve grow mode https dh max_len limit stream sched = Err e /\ " + ERRS),
+    ("stalled_head",
+     r"forall grow mode https dh (max_len : nat) limit stream (sched : list nat), contains_two_newlines (firstn (sum_sched sched) stream) = false -> exists e, serve grow mode https dh max_len limit stream sched = Err e /\ " + ERRS),
+    ("body_exact",
+     r"forall grow mode early (cl limit : N) stream (sched : list nat), grow_ok grow -> sched_pos sched -> (N.to_nat (N.min cl limit) <= length early + Nat.min (sum_sched sched) (length stream))%nat -> exists r', read_to_bytes grow mode early cl limit (mk_reader stream sched) = Ok (firstn (N.to_nat (N.min cl limit)) (early ++ stream), r') /\ rd_data r' = skipn (N.to_nat (N.min cl limit) - length early) stream"),
+    ("body_any_schedule",
+     r"forall grow mode early (cl limit : N) stream (sched : list nat), grow_ok grow -> sched_pos sched -> match body_spec mode early cl limit (firstn (sum_sched sched) stream) with | Ok b => exists r', read_to_bytes grow mode early cl limit (mk_reader stream sched) = Ok (b, r') | Err e => read_to_bytes grow mode early cl limit (mk_reader stream sched) = Err e | Panic => False end"),
 ]
